@@ -139,6 +139,8 @@ class WeibullFailureModel:
         """
         volumes = tube.element_volumes()
 
+        # The tube stores tensor components, the models take Mandel vectors:
+        # scale the shear components by sqrt(2)
         stresses = np.transpose(
             np.mean(
                 np.stack(
@@ -146,9 +148,9 @@ class WeibullFailureModel:
                         tube.quadrature_results["stress_xx"],
                         tube.quadrature_results["stress_yy"],
                         tube.quadrature_results["stress_zz"],
-                        tube.quadrature_results["stress_yz"],
-                        tube.quadrature_results["stress_xz"],
-                        tube.quadrature_results["stress_xy"],
+                        np.sqrt(2.0) * tube.quadrature_results["stress_yz"],
+                        np.sqrt(2.0) * tube.quadrature_results["stress_xz"],
+                        np.sqrt(2.0) * tube.quadrature_results["stress_xy"],
                     )
                 ),
                 axis=-1,
